@@ -6,11 +6,11 @@ package main
 // obligations, each referring to a prefix of the assertions.
 
 import (
-	"os"
 	"fmt"
 	"go/ast"
 	"go/token"
 	"go/types"
+	"os"
 	"sort"
 	"strings"
 
@@ -42,53 +42,54 @@ type FuncGen struct {
 	fn  *ssa.Function
 	ct  *Contract
 
-	vals       map[ssa.Value]Val
-	asserts    []string
-	obls       []*Obligation
-	comps      map[string]*Comp
-	ghostSort  map[string]string
-	ghostInits map[string]string
-	epochs     int
-	entry      *State
-	paramVals  map[string]Val
-	cur        *State
-	reach      string
-	block      *ssa.BasicBlock
-	tainted    string
-	ordinals   map[string]int
-	notes      []string // assumptions / abstractions made while generating
-	noteSeen   map[string]bool
-	props      []string // default property tags
-	loops      map[*ssa.BasicBlock]*loopInfo
-	iterCells  map[*ssa.Range]string // Range instr -> ghost cell name
-	retResults []Val
-	lastPos    token.Pos
-	callCount  map[string]int
-	nilChecked map[string]bool
-	constLen   map[string]int // slice term -> syntactically known length
-	blockOrder map[*ssa.BasicBlock]int
-	invAssumed map[string]bool
-	invTouched map[string]touched
-	returns    []retEdge
-	fspec      *frameSpec
+	vals         map[ssa.Value]Val
+	asserts      []string
+	obls         []*Obligation
+	comps        map[string]*Comp
+	ghostSort    map[string]string
+	ghostInits   map[string]string
+	epochs       int
+	entry        *State
+	paramVals    map[string]Val
+	cur          *State
+	reach        string
+	block        *ssa.BasicBlock
+	tainted      string
+	ordinals     map[string]int
+	notes        []string // assumptions / abstractions made while generating
+	noteSeen     map[string]bool
+	props        []string // default property tags
+	loops        map[*ssa.BasicBlock]*loopInfo
+	iterCells    map[*ssa.Range]string // Range instr -> ghost cell name
+	retResults   []Val
+	lastPos      token.Pos
+	callCount    map[string]int
+	nilChecked   map[string]bool
+	constLen     map[string]int // slice term -> syntactically known length
+	blockOrder   map[*ssa.BasicBlock]int
+	invAssumed   map[string]bool
+	invTouched   map[string]touched
+	returns      []retEdge
+	fspec        *frameSpec
 	pendingTrace *traceRec
 	pendingFnVal string
-	inlineDepth int
-	inlineSeq   int
-	closures    map[ssa.Value]*ssa.MakeClosure
-	lastAssert map[string]int
-	ownAllocs  []ownAlloc
-	known      map[string]touched
-	depsCache  map[string][]string
-	recording  map[string]bool
-	boundary   *State
-	muted      bool
-	ownMods    map[string][]string // component -> references this function stored to itself ("*" = unknown)
+	globalAddrs  []string
+	inlineDepth  int
+	inlineSeq    int
+	closures     map[ssa.Value]*ssa.MakeClosure
+	lastAssert   map[string]int
+	ownAllocs    []ownAlloc
+	known        map[string]touched
+	depsCache    map[string][]string
+	recording    map[string]bool
+	boundary     *State
+	muted        bool
+	ownMods      map[string][]string // component -> references this function stored to itself ("*" = unknown)
 	storeRefHint string
-	inCallHavoc bool
-	inInv      bool
-	dirty      map[string]bool
-	callEpoch  int
+	inCallHavoc  bool
+	inInv        bool
+	dirty        map[string]bool
+	callEpoch    int
 }
 
 type touched struct {
@@ -294,6 +295,11 @@ func (fg *FuncGen) globalAddr(gl *ssa.Global) string {
 	t := fg.enc.declConst(name, "Int")
 	if first {
 		fg.assume(fmt.Sprintf("(< %s 0)", t))
+		// distinct package-level variables have distinct addresses
+		for _, o := range fg.globalAddrs {
+			fg.assume(fmt.Sprintf("(not (= %s %s))", t, o))
+		}
+		fg.globalAddrs = append(fg.globalAddrs, t)
 	}
 	return t
 }
@@ -498,20 +504,20 @@ func (fg *FuncGen) nilCheck(ref string, pos token.Pos, what string) {
 // ---- loops ---------------------------------------------------------------------------
 
 type loopInfo struct {
-	header   *ssa.BasicBlock
-	blocks   map[*ssa.BasicBlock]bool
-	backSrc  []*ssa.BasicBlock
-	ordinal  int
-	spec     *LoopSpec
-	scopePos token.Pos
-	headSt   *State
-	headReach string
-	decTerm  string
-	entrySt  *State
+	header     *ssa.BasicBlock
+	blocks     map[*ssa.BasicBlock]bool
+	backSrc    []*ssa.BasicBlock
+	ordinal    int
+	spec       *LoopSpec
+	scopePos   token.Pos
+	headSt     *State
+	headReach  string
+	decTerm    string
+	entrySt    *State
 	frameComps []string
-	text     string
-	rangeIdx *ssa.Alloc
-	rangeLen string
+	text       string
+	rangeIdx   *ssa.Alloc
+	rangeLen   string
 }
 
 func (fg *FuncGen) findLoops() {
